@@ -246,7 +246,7 @@ def run(ctx):
     spec = G.make_spectral(rng, 6 if quick else 24)
     sims = G.make_sims(rng, 2 if quick else 6)
     batches = G.make_batches(rng, 24 if quick else 96)
-    memos = G.make_memo_cases(rng, 12 if quick else 36)
+    memos = G.make_memo_cases(rng, 8 if quick else 30)
     unit_groups = G.make_unit_cases(rng, 7 if quick else 30)
     for grp in unit_groups:
         cases += grp
@@ -347,7 +347,7 @@ def run(ctx):
                 continue
             nunit += 1
             for kind, k, detail in EV.evaluate_units(cb, rb, cs, rs):
-                key = "%s:%s" % (kind, "/".join(str(x) for x in (cb["combo"][0], cb["combo"][3], cb["combo"][5], "spectral" if rs.get("reducible") else "newton", "sy<1" if EV.sy_of(cs) < 1 else "sy>=1")))
+                key = "%s:%s" % (kind, "/".join(str(x) for x in (cb["combo"][0], cb["combo"][3], cb["combo"][5], "spectral" if rs.get("reducible") else "newton", ("time x%g" % cs["time_scale"]) if cs.get("time_scale") else ("sy<1" if EV.sy_of(cs) < 1 else "sy>=1"))))
                 if key not in found:
                     short_b, short_s = dict(cb), dict(cs)
                     if k >= 0:
@@ -371,6 +371,9 @@ def run(ctx):
             key = "%s:%s" % (kind, "spectral" if r.get("reducible") else "newton")
             if key not in found:
                 found[key] = ("%s in %s: %s" % (kind, c["id"], detail), replay_for(c, kind, "memo_cases"))
+    for pred in ["stale-after-law-change", "eigen-decomposition-inconsistent"]:
+        badp = [k for k in found if k.split(":")[0] == pred]
+        ctx.obligation("corr:" + pred, not badp, "; ".join(found[b_][0][:200] for b_ in badp[:3]) or "held on %d law changes / every reducible behaviour" % nmemo)
     bad = [k for k in found if k.split(":")[0] == "stale-after-parameter-change"]
     ctx.obligation("corr:stale-after-parameter-change", not bad, "; ".join(found[b][0][:200] for b in bad[:3]) or "held bitwise on %d behaviors whose (E, v) were changed between calls" % nmemo)
     ctx.cov["batched_points"] = nbp
